@@ -287,13 +287,13 @@ def gpo_N_H(n, rhomax):
     return N, H, x
 
 
-def build(case, part_cls, learner_cls=None):
+def build(case, part_cls, learner_cls=None, box_obj=None):
     """construct the real algorithm from a case descriptor; `case['box']` is deep-copied so that the user's box
     stays available for comparison"""
     a = case["algo"]
     P = case.get("params", {})
     n = case["n"]
-    dom = copy.deepcopy(case["box"])
+    dom = box_obj if box_obj is not None else copy.deepcopy(case["box"])
     if a == "T_HOO":
         return T_HOO(nu=P["nu"], rho=P["rho"], rounds=n, domain=dom, partition=part_cls)
     if a == "HCT":
@@ -398,6 +398,10 @@ def open_rewards(fam, seed, T):
         r = -rng.random(T) - 0.5
         r[-1] = 0.25
         return r
+    if fam == "roundidx":
+        return np.arange(1, T + 1, dtype=float)
+    if fam == "sin3":
+        return 3.0 * np.sin(np.arange(1, T + 1, dtype=float))
     if fam == "huge":
         e = rng.uniform(100, 307, T)
         return rng.choice([-1.0, 1.0], size=T) * 10.0 ** e
